@@ -212,8 +212,12 @@ def gen_struct(rng, pkg, name, later, enums, aliases, opts):
         if exported and rng.random() < 0.15:
             fname = rng.choice(["Zed", "Alpha", "Mid"]) + str(i)
         t = gen_field_type(rng, own, later, enums, aliases, opts.get("self_recursive", True))
+        val = gen_validate(rng, t)
+        if (pkg, name) in texpr_refs(t) and "required" in val and rng.random() < 0.85:
+            # libopenapi (3.1) refuses a required property that leads back to its own schema
+            val = ",".join(x for x in val.split(",") if x != "required")
         fields.append({"name": fname, "embedded": False, "json": gen_json_tag(rng, fname, opts),
-                       "validate": gen_validate(rng, t), "type": t})
+                       "validate": val, "type": t})
     rng.shuffle(fields)
     return {"pkg": pkg, "name": name, "kind": "struct", "fields": fields}
 
@@ -529,9 +533,13 @@ def render_config(u, root, modpath, openapi):
     return name
 
 
-def run_universes(prop, universes, versions=VERSIONS, tag="mod"):
+SENTINEL = '{"sentinel": "left by an earlier run"}\n'
+
+
+def run_universes(prop, universes, versions=VERSIONS, tag="mod", sentinel=()):
     """Render every universe, run the real CLI for each version.  Returns per universe a dict
-    version -> {exit, out, spec, spec_exists, dir}."""
+    version -> {exit, out, spec, spec_exists, dir, sentinel, untouched}.  For the universe indices in
+    `sentinel` a spec file with foreign content is placed at the output path before the run."""
     build_cli()
     moddir = os.path.join(WORK, prop, tag)
     shutil.rmtree(moddir, ignore_errors=True)
@@ -543,6 +551,10 @@ def run_universes(prop, universes, versions=VERSIONS, tag="mod"):
         render_universe(u, root, modpath)
         for v in versions:
             cfgname = render_config(u, root, modpath, v)
+            if k in sentinel:
+                os.makedirs(os.path.join(root, "dist"), exist_ok=True)
+                with open(os.path.join(root, "dist", "spec-%s.json" % v), "w") as f:
+                    f.write(SENTINEL)
             jobs.append({"dir": root, "args": ["generate", "spec", "-c", cfgname]})
             index.append((k, v))
     results = P.run_cli_many(jobs)
@@ -552,7 +564,14 @@ def run_universes(prop, universes, versions=VERSIONS, tag="mod"):
         path = os.path.join(root, "dist", "spec-%s.json" % v)
         r = dict(r)
         r["spec_exists"] = os.path.exists(path)
-        r["spec"] = P.load_json(path)
+        r["sentinel"] = k in sentinel
+        text = None
+        if r["spec_exists"]:
+            with open(path, errors="replace") as f:
+                text = f.read()
+        r["untouched"] = r["sentinel"] and text == SENTINEL
+        r["spec"] = None if r["untouched"] else P.load_json(path)
+        r["unparsable"] = r["spec_exists"] and not r["untouched"] and r["spec"] is None
         r["dir"] = root
         out[k][v] = r
     return out
